@@ -30,7 +30,8 @@ def solve(ctx, il, query, bad, extra=(), vars=None, replay=None, desc=""):
     dt = time.time() - t0
     ctx.solver_s += dt
     if r == "unsat":
-        ctx._rec(kind="prove", query=query, status="discharged", seconds=dt, desc=desc)
+        # thorough tier: queries z3 decided quickly are exported and re-decided by cvc5 1.0.3 and z3 4.8.12 (runner.cross_check)
+        ctx._rec(kind="prove", query=query, status="discharged", seconds=dt, desc=desc, smt2=ctx._export(s) if dt < 20 else None)
         return
     if r != "sat":
         ctx._rec(kind="prove", query=query, status="inconclusive", seconds=dt, desc=desc, reason="solver " + r)
